@@ -983,6 +983,7 @@ namespace sim
             }
             else if( s == SITE_ALLOC ) {
                f.cls = EXC_BAD_ALLOC;
+               f.k = static_cast< std::uint16_t >( r.range( 1, 10 ) );
             }
             else {
                const std::uint8_t cl[] = { EXC_FAULT, EXC_STD, EXC_PE, EXC_INT };
